@@ -283,7 +283,11 @@ Inductive ierr :=
 
 Record session := {
   s_search : list path;          (* search_paths, in stored order *)
-  s_sources : list path;         (* source_paths: real-file source id -> as-loaded path *)
+  s_sources : list (path * bool);
+    (* per source id: (repr_path in the source manager, has an entry in source_paths).
+       Real files: (as-loaded path, true).  Virtual sources (-e "<cmdline>", stdin "<stdin>",
+       --ext-code "<ext:v>", --tla-code "<tla:x>"): (that name, false) — load_virt_file does not
+       insert into source_paths, so such a source has NO importer directory *)
   s_cache : list (path * N);     (* source_cache: canonical path -> thunk (= source id) *)
   s_thunks : list tstate;        (* per source id *)
   s_log : list event;            (* newest first *)
@@ -345,8 +349,8 @@ Section World.
     match from with
     | None => None
     | Some sid => match nthN (s_sources st) sid with
-                  | Some p => parent p
-                  | None => None
+                  | Some (p, true) => parent p
+                  | _ => None
                   end
     end.
 
@@ -377,19 +381,38 @@ Section World.
                 match prog_of data with
                 | Some pr =>
                     ({| s_search := s_search st;
-                        s_sources := s_sources st ++ [p];
+                        s_sources := s_sources st ++ [(p, true)];
                         s_cache := (cp, sid) :: s_cache st;
                         s_thunks := s_thunks st ++ [TPending pr];
                         s_log := EvLoaded sid cp p :: EvRead p :: s_log st |}, inr sid)
                 | None =>
                     ({| s_search := s_search st;
-                        s_sources := s_sources st ++ [p];
+                        s_sources := s_sources st ++ [(p, true)];
                         s_cache := s_cache st;
                         s_thunks := s_thunks st ++ [TNone];
                         s_log := EvMsg WLoad p :: EvRead p :: s_log st |}, inl WLoad)
                 end
             end
         end
+    end.
+
+  (* SessionInner::load_virt_file: the source is registered under its display name only
+     (no source_paths entry, no cache entry) *)
+  Definition load_virt_file (st : session) (repr : path) (data : list N) : session * (why + N) :=
+    let sid := N.of_nat (length (s_sources st)) in
+    match prog_of data with
+    | Some pr =>
+        ({| s_search := s_search st;
+            s_sources := s_sources st ++ [(repr, false)];
+            s_cache := s_cache st;
+            s_thunks := s_thunks st ++ [TPending pr];
+            s_log := s_log st |}, inr sid)
+    | None =>
+        ({| s_search := s_search st;
+            s_sources := s_sources st ++ [(repr, false)];
+            s_cache := s_cache st;
+            s_thunks := s_thunks st ++ [TNone];
+            s_log := EvMsg WLoad repr :: s_log st |}, inl WLoad)
     end.
 
   (* Callbacks::import (up to the returned thunk) *)
@@ -417,7 +440,7 @@ Section World.
     end.
 
   Definition repr_path (st : session) (sid : N) : path :=
-    match nthN (s_sources st) sid with Some p => p | None => [] end.
+    match nthN (s_sources st) sid with Some (p, _) => p | None => [] end.
 
   (* one expression of file [sid] at position [pos]; [forcef] forces a thunk to
      weak head normal form (Expr::Import pushes State::DoThunk) *)
@@ -561,6 +584,21 @@ Section World.
         | (st', OutOfFuel) => (st', OutOfFuel)
         end
     end.
+
+  (* main.rs with -e / stdin (the root is a virtual source), and equally a --ext-code /
+     --tla-code snippet whose value the root hands through: load_virt_file, force, manifest *)
+  Definition run_virtual (fuel : nat) (jpaths : list path) (repr : path) (data : list N)
+    : session * res value :=
+    match load_virt_file (cli_session jpaths) repr data with
+    | (st, inl w) => (st, Err (MainLoadFailed w))
+    | (st, inr sid) =>
+        match force fuel sid st with
+        | (st', Ok _) => manifest fuel sid st'
+        | (st', Err x) => (st', Err x)
+        | (st', Panic s) => (st', Panic s)
+        | (st', OutOfFuel) => (st', OutOfFuel)
+        end
+    end.
 End World.
 
 
@@ -689,3 +727,7 @@ Fixpoint assoc_bytes (k : list N) (l : list (list N * prog)) : option prog :=
 Definition run_concrete (t : cfs) (priv : bool) (cwd : list str) (progs : list (list N * prog))
            (fuel : nat) (jpaths : list path) (main : path) : session * res value :=
   run_main (cnode t priv cwd) (ccanon t priv cwd) (fun b => assoc_bytes b progs) fuel jpaths main.
+
+Definition run_concrete_virtual (t : cfs) (priv : bool) (cwd : list str) (progs : list (list N * prog))
+           (fuel : nat) (jpaths : list path) (repr : path) (data : list N) : session * res value :=
+  run_virtual (cnode t priv cwd) (ccanon t priv cwd) (fun b => assoc_bytes b progs) fuel jpaths repr data.
